@@ -46,7 +46,7 @@ def sh(cmd, timeout):
 
 def run_job(job):
     runner = job.get("runner", "vkit.chworker")
-    wall = float(job.get("timeout", 30)) * 4 + 120
+    wall = float(job.get("timeout", 30)) * 10 + 300     # budgets are CPU seconds; the wall cap only guards against a hang and must not fire on a loaded machine
     rc, out, err, dt = sh([VT, "-m", runner, json.dumps(job)], wall)
     for line in out.splitlines()[::-1]:
         if line.startswith("RESULT "):
